@@ -73,8 +73,10 @@ class Report:
         dump = os.environ.get("VF_DUMP")
         if dump:
             with open(dump, "w") as f:
-                json.dump([dict(signature=v["signature"], prog=v["prog"]["name"],
-                                prefix=v["prefix"], msg=v.get("msg", "")[:300])
+                json.dump([dict(signature=v["signature"],
+                                prog=(v.get("prog") or {}).get("name") if isinstance(v.get("prog"), dict)
+                                else v.get("program"),
+                                prefix=v.get("prefix"), msg=v.get("msg", "")[:300])
                            for v in self.violations], f)
         reported = {}
         known_hit = {}
